@@ -23,6 +23,7 @@ def handle (case : Json) : Json :=
   | "scan" => scanOp case
   | "render" => renderOp case
   | "src_eval" => srcEval case
+  | "match_oracle" => matchOracle case
   | op => Json.mkObj [("error", s!"unknown op {op}")]
 
 partial def loop (h : IO.FS.Stream) (out : IO.FS.Stream) : IO Unit := do
